@@ -29,6 +29,12 @@ class GaussModel:
             self.calls.append(dict(kw))
         logl, logp = self.evaluate(kw)
         if self.blobs:
+            if getattr(self, 'reuse_blob', False):
+                # a model may hand out one and the same dictionary every time, refilled: still a pure function of its arguments
+                if not hasattr(self, '_blob_obj'):
+                    self._blob_obj = {}
+                self._blob_obj.update(self.expected_blob(kw))
+                return logl, logp, self._blob_obj
             return logl, logp, self.expected_blob(kw)
         return logl, logp
 
